@@ -8,7 +8,38 @@ import subprocess
 HERE = os.path.dirname(os.path.abspath(__file__))
 VERIF = os.path.dirname(HERE)
 LEAN_DIR = os.path.join(VERIF, "lean")
-MODEL_EXE = os.path.join(LEAN_DIR, ".lake", "build", "bin", "pahomodel")
+# one compiled model executable per driver, so that a model that no longer builds only takes its own streams with it
+STREAM_EXE = {"trie": "pm_trie", "mid": "pm_mid", "validate": "pm_validate", "session": "pm_session",
+              "session-inv": "pm_session", "props": "pm_props", "codec": "pm_codec", "decode": "pm_decode",
+              "reader": "pm_reader", "loopforever": "pm_lf", "dispatch": "pm_dispatch", "helpers": "pm_helpers",
+              "threads": "pm_threads", "ws": "pm_ws", "wsbad": "pm_ws", "wsreader": "pm_wsreader"}
+EXE_ROOT = {"pm_trie": "Main.Trie", "pm_mid": "Main.Mid", "pm_validate": "Main.Validate", "pm_session": "Main.Session",
+            "pm_props": "Main.Props", "pm_codec": "Main.Codec", "pm_decode": "Main.Decode", "pm_reader": "Main.Reader",
+            "pm_lf": "Main.LF", "pm_dispatch": "Main.Dispatch", "pm_helpers": "Main.Helpers", "pm_threads": "Main.Threads",
+            "pm_ws": "Main.Ws", "pm_wsreader": "Main.WsReader"}
+
+
+def model_exe(stream: str) -> str:
+    return os.path.join(LEAN_DIR, ".lake", "build", "bin", STREAM_EXE[stream])
+
+
+def import_closure(modules) -> set:
+    """transitive imports (within lean/) of the given Lean modules, read from the sources"""
+    import re
+    seen, todo = set(), list(modules)
+    while todo:
+        m = todo.pop()
+        if m in seen:
+            continue
+        p = os.path.join(LEAN_DIR, *m.split(".")) + ".lean"
+        if not os.path.exists(p):
+            continue
+        seen.add(m)
+        for line in open(p):
+            mm = re.match(r"\s*(?:public\s+)?import\s+([\w.]+)", line)
+            if mm:
+                todo.append(mm.group(1))
+    return seen
 REPO = os.environ.get("PAHO_VERIF_REPO", "/repo")
 REPO_SRC = os.path.join(REPO, "src")
 os.environ.setdefault("PAHO_VERIF_REPO_SRC", REPO_SRC)
@@ -42,10 +73,10 @@ def _run_model_chunk(stream, cases, timeout):
     for c in cases:
         inp.extend(c)
         inp.append("---")
-    p = subprocess.run([MODEL_EXE, stream], input="\n".join(inp) + "\n", capture_output=True,
+    p = subprocess.run([model_exe(stream), stream], input="\n".join(inp) + "\n", capture_output=True,
                        text=True, timeout=timeout)
     if p.returncode != 0:
-        raise RuntimeError(f"pahomodel {stream} failed: {p.stderr[:500]}")
+        raise RuntimeError(f"{STREAM_EXE[stream]} {stream} failed: {p.stderr[:500]}")
     out, cur = [], []
     for line in p.stdout.split("\n"):
         if line == "---":
@@ -58,7 +89,7 @@ def _run_model_chunk(stream, cases, timeout):
 
 def run_model(stream: str, cases: list[list[str]], timeout=1800) -> list[list[str]] | None:
     """run the compiled Lean model on a batch of cases (one output line per input line), in NPROC parallel chunks."""
-    if not os.path.exists(MODEL_EXE):
+    if not os.path.exists(model_exe(stream)):
         return None
     if len(cases) < 64:
         return _run_model_chunk(stream, cases, timeout)
